@@ -1138,6 +1138,27 @@ theorem src_ne_is_model : py_ne = neZ := rfl
 theorem src_truediv_is_model : py_truediv = divZ := by funext p q; exact Src.truediv p q
 theorem src_truediv_num_is_model : py_truediv_num = divsZ := by funext p c; exact Src.truediv_num p c
 
+/-- `Poly.__pow__` with a number exponent (int / bool / float of integral value `n`): all its branches — exponent 0, the
+    empty Poly, one term (`k * other`, `1 if v == 1 else v ** other`, ZeroDivisionError of `0 ** negative`), and
+    `reduce(operator.mul, [self.copy()] * (other - 1) + [self])` (TypeError of a float count, the object `self` ITSELF for a
+    count `≤ 0`, the left-nested product otherwise).  Hypothesis: `p.copy()` has the contents of `p` (distinct powers, no
+    stored zero: every instance the constructor produced) — the source multiplies COPIES, the model `powLoopZ` multiplies
+    `p`; for an instance with a stored zero the two differ, and the model does not cover it. -/
+theorem src_pow_is_model (p : ZPoly) (n : Int) (ek : ExpKind) (hc : copyZ p none = p) :
+    Py.toPowRes (py_pow p n ek) = powZ p n ek := Src.pow p n ek hc
+
+/-- the hypothesis of `src_pow_is_model` is the representation invariant `Good` (distinct powers, no stored zero), which
+    every instance of a history has (`zval_good`) -/
+theorem src_pow_hyp_of_good {p : ZPoly} (h : Good p) : copyZ p none = p := by
+  obtain ⟨d, z⟩ := p
+  show (⟨compactZ z (ofPairs d), z⟩ : ZPoly) = ⟨d, z⟩
+  rw [ofPairs_of_nodup h.1]
+  unfold compactZ
+  rw [List.filter_eq_self.2 h.2]
+
+theorem src_pow_is_model_of_good {p : ZPoly} (h : Good p) (n : Int) (ek : ExpKind) :
+    Py.toPowRes (py_pow p n ek) = powZ p n ek := Src.pow p n ek (src_pow_hyp_of_good h)
+
 end Source
 
 end ALV.Props.C07
